@@ -58,28 +58,28 @@ def _table_job(st):
         off = np.array([rat(x) for x in c["off"]])
         d = {"num_x": c["nx"], "num_y": c["ny"], "wing_type": "rect", "symmetry": bool(c["sym"]), "span": rat(c["span"]), "root_chord": rat(c["chord"]), "offset": off}
         mesh = generate_mesh(d)
-        if mesh.shape != exp.shape or float(np.max(np.abs(mesh - exp))) > 1e-13 * max(1.0, float(np.max(np.abs(exp)))):
+        if mesh.shape != exp.shape or not (float(np.max(np.abs(mesh - exp))) <= 1e-13 * max(1.0, float(np.max(np.abs(exp))))):
             bad.append("table:generate_mesh:rect")
         if c["sym"] and not np.any(off):
             d2 = dict(d, symmetry=False)
             full = generate_mesh(d2)
-            if float(np.max(np.abs(getFullMesh(left_mesh=mesh) - full))) > 1e-13 * float(np.max(np.abs(full))):
+            if not (float(np.max(np.abs(getFullMesh(left_mesh=mesh) - full))) <= 1e-13 * float(np.max(np.abs(full)))):
                 bad.append("table:getFullMesh:left")
             nyh = mesh.shape[1]
-            if float(np.max(np.abs(getFullMesh(right_mesh=full[:, nyh - 1 :]) - full))) > 1e-13 * float(np.max(np.abs(full))):
+            if not (float(np.max(np.abs(getFullMesh(right_mesh=full[:, nyh - 1 :]) - full))) <= 1e-13 * float(np.max(np.abs(full)))):
                 bad.append("table:getFullMesh:right")
     else:
         surf = _multi_surface(c)
         mesh, secm = gen_multi(surf)
-        if mesh.shape != exp.shape or float(np.max(np.abs(mesh - exp))) > 1e-12 * max(1.0, float(np.max(np.abs(exp)))):
+        if mesh.shape != exp.shape or not (float(np.max(np.abs(mesh - exp))) <= 1e-12 * max(1.0, float(np.max(np.abs(exp))))):
             bad.append("table:multi_section:stitched")
         for i, sm in enumerate(secm):
             e = _arr(st["secs"][i])
-            if sm.shape != e.shape or float(np.max(np.abs(sm - e))) > 1e-12 * max(1.0, float(np.max(np.abs(e)))):
+            if sm.shape != e.shape or not (float(np.max(np.abs(sm - e))) <= 1e-12 * max(1.0, float(np.max(np.abs(e))))):
                 bad.append("table:multi_section:section")
                 break
         uni = unify_mesh([{"mesh": m} for m in secm])
-        if uni.shape != exp.shape or float(np.max(np.abs(uni - exp))) > 1e-12 * max(1.0, float(np.max(np.abs(exp)))):
+        if uni.shape != exp.shape or not (float(np.max(np.abs(uni - exp))) <= 1e-12 * max(1.0, float(np.max(np.abs(exp))))):
             bad.append("table:unify_mesh")
     return {"case": {k: (v if not isinstance(v, list) else str(v)) for k, v in c.items()}, "bad": bad}
 
@@ -95,17 +95,17 @@ def _wellformed(mesh, name, bad, span=None, chord=None, sym=False, off=None):
     off = np.zeros(3) if off is None else off
     if span is not None:
         ext = mesh[0, -1, 1] - mesh[0, 0, 1]
-        if abs(ext - (span / 2 if sym else span)) > 1e-12 * span:
+        if not (abs(ext - (span / 2 if sym else span)) <= 1e-12 * span):
             bad.append("random:%s:span" % name)
     if chord is not None:
         root = mesh[:, -1, :] if sym else mesh[:, (mesh.shape[1] - 1) // 2, :]
-        if abs((root[-1, 0] - root[0, 0]) - chord) > 1e-12 * chord:
+        if not (abs((root[-1, 0] - root[0, 0]) - chord) <= 1e-12 * chord):
             bad.append("random:%s:root_chord" % name)
     if not sym:
         m0 = mesh - off
         mir = m0[:, ::-1, :].copy()
         mir[:, :, 1] *= -1
-        if float(np.max(np.abs(mir - m0))) > 1e-12 * float(np.max(np.abs(m0))):
+        if not (float(np.max(np.abs(mir - m0))) <= 1e-12 * float(np.max(np.abs(m0)))):
             bad.append("random:%s:not_mirror_symmetric" % name)
 
 
@@ -145,17 +145,17 @@ def _random_job(k):
                 bad.append("random:crm:twist_cp")
     if False in res and True in res and res[True].shape[1] == (ny + 1) // 2:
         full, half = res[False], res[True]
-        if float(np.max(np.abs(half - full[:, : half.shape[1]]))) > 0.0:
+        if not (float(np.max(np.abs(half - full[:, : half.shape[1]]))) <= 0.0):
             bad.append("random:half_is_not_left_half_of_full")
         # mirroring the half mesh back reproduces the full mesh (offset removed in y: the mirror plane is y = 0)
         h0, f0 = half - off, full - off
-        if float(np.max(np.abs(getFullMesh(left_mesh=h0) - f0))) > 1e-12 * float(np.max(np.abs(f0))):
+        if not (float(np.max(np.abs(getFullMesh(left_mesh=h0) - f0))) <= 1e-12 * float(np.max(np.abs(f0)))):
             bad.append("random:getFullMesh_roundtrip")
         # offsets are pure translations
         d0 = dict(base, symmetry=False, offset=np.zeros(3))
         o0 = generate_mesh(d0)
         o0 = o0[0] if crm else o0
-        if float(np.max(np.abs((o0 + off) - full))) > 1e-12 * max(1.0, float(np.max(np.abs(full)))):
+        if not (float(np.max(np.abs((o0 + off) - full))) <= 1e-12 * max(1.0, float(np.max(np.abs(full))))):
             bad.append("random:offset_not_translation")
     return {"k": k, "bad": bad, "case": {"nx": nx, "ny": ny, "crm": crm, "span_cos": scs, "chord_cos": ccs}}
 
@@ -185,25 +185,25 @@ def _multi_job(k):
     mesh, secm = gen_multi(surf)
     bad = []
     for i in range(ns - 1):
-        if float(np.max(np.abs(secm[i][:, -1, :] - secm[i + 1][:, 0, :]))) > 1e-12 * float(np.max(np.abs(mesh))):
+        if not (float(np.max(np.abs(secm[i][:, -1, :] - secm[i + 1][:, 0, :]))) <= 1e-12 * float(np.max(np.abs(mesh)))):
             bad.append("random:multi:edges_not_coincident")
     if not np.all(np.diff(mesh[:, :, 1], axis=1) > 0):
         bad.append("random:multi:y_not_increasing")
     if not np.all(np.diff(mesh[:, :, 0], axis=0) > 0):
         bad.append("random:multi:x_not_increasing")
-    if abs(mesh[0, -1, 1]) > 1e-13 or abs((mesh[0, -1, 1] - mesh[0, 0, 1]) - float(np.sum(surf["span"]))) > 1e-12 * float(np.sum(surf["span"])):
+    if not (abs(mesh[0, -1, 1]) <= 1e-13) or not (abs((mesh[0, -1, 1] - mesh[0, 0, 1]) - float(np.sum(surf["span"]))) <= 1e-12 * float(np.sum(surf["span"]))):
         bad.append("random:multi:span_or_root_plane")
-    if abs((mesh[-1, -1, 0] - mesh[0, -1, 0]) - surf["root_chord"]) > 1e-12 * surf["root_chord"]:
+    if not (abs((mesh[-1, -1, 0] - mesh[0, -1, 0]) - surf["root_chord"]) <= 1e-12 * surf["root_chord"]):
         bad.append("random:multi:root_chord")
     uni = unify_mesh([{"mesh": m} for m in secm])
-    if uni.shape != mesh.shape or float(np.max(np.abs(uni - mesh))) > 1e-12 * float(np.max(np.abs(mesh))):
+    if uni.shape != mesh.shape or not (float(np.max(np.abs(uni - mesh))) <= 1e-12 * float(np.max(np.abs(mesh)))):
         bad.append("random:multi:unify_function")
     if ns >= 2:  # the unification COMPONENT is only meaningful (and only sets up) for two or more sections
         secs = [{"name": "sec%d" % i, "mesh": m} for i, m in enumerate(secm)]
         comp = GeomMultiUnification(sections=secs, surface_name="wing", shift_uni_mesh=bool(k % 2))
         out = run_comp(comp, {"sec%d_def_mesh" % i: m for i, m in enumerate(secm)}, None)
         um = [v for kk, v in out.items() if v.shape == mesh.shape]
-        if not um or float(np.max(np.abs(um[0] - mesh))) > 1e-12 * float(np.max(np.abs(mesh))):
+        if not um or not (float(np.max(np.abs(um[0] - mesh))) <= 1e-12 * float(np.max(np.abs(mesh)))):
             bad.append("random:multi:unification_component")
     return {"k": k, "bad": bad, "case": {"sections": ns, "nx": nx, "ny": [int(x) for x in surf["ny"]]}}
 
